@@ -50,6 +50,8 @@ _XLATE = {}
 
 def content(mode, seed, size):
     """File bytes as a pure function of (mode, seed, size)."""
+    if mode == "lit":
+        return bytes.fromhex(seed)        # literal content carried in the case itself (seed = hex string)
     if size == 0:
         return b""
     if mode == "zero":
@@ -88,6 +90,8 @@ def materialize(tree, parent):
     os.mkdir(root)
     later = []
     for f in tree["files"]:
+        if f.get("via") is not None:
+            continue                      # provided by a symbolic link (tree["links"])
         p = os.path.join(root, *f["path"])
         os.makedirs(os.path.dirname(p), exist_ok=True)
         if f.get("hardlink") is not None:
@@ -99,6 +103,10 @@ def materialize(tree, parent):
             os.chmod(p, 0o755)
     for f, p in later:
         os.link(os.path.join(root, *tree["files"][f["hardlink"]]["path"]), p)
+    for link in tree.get("links", []):
+        p = os.path.join(root, *link["path"])
+        if not os.path.lexists(p):
+            os.symlink(link["target"], p)
     for link in tree.get("dirlinks", []):
         # a symbolic link to a sibling directory (only generated where a property's domain admits it)
         p = os.path.join(root, *link["path"])
